@@ -293,7 +293,9 @@ CLAIMED["C05"] = dict(
          "oracle; a command that changes the status forces another solve; the tank-level backtrack lies inside the step and the earlier of two "
          "crossings has the larger backtrack (reals, Flocq Zfloor). Ties decided inside coqc: every traced post-solve pass of real runs equals "
          "after_solve (vm_compute); the truth value the implementation gave each condition equals value_cond/tank_cond on the REPORTED value (exact "
-         "rationals); threshold crossings overshoot by < 2 s of flow (interval). The statement itself is evaluated on the reported tables of the same runs.",
+         "rationals); every traced TankLevelCondition.evaluate call (user controls and the simulator's own tank-limit controls, pre- and post-solve) has "
+         "the model's truth value and, when the threshold has just been crossed, exactly the model's whole-second backtrack (Zfloor equality proved by "
+         "interval); threshold crossings overshoot by < 2 s of flow (interval). The statement itself is evaluated on the reported tables of the same runs.",
     ref="DESIGN.md section 5 C05",
     note="Trusted: Coq kernel + vm_compute; stdlib real axioms for the backtrack theorems only; harness tracing wrappers; coq-interval. Modelled, not "
          "verified: which controls a solved state triggers (an oracle in the theorems; observed per pass in the tie).",
